@@ -39,6 +39,14 @@ open Ural.Props.C08 (hostLen)
 /-- the two keys of `LANG_QUERY_KEYS` the property names -/
 theorem langQueryKeys_eq : Gen.Normalize.langQueryKeys = ["gl", "hl"] := by decide
 
+/-- `gl` / `hl` are in no combo table of `normalize_url` (else `IRRELEVANT_QUERY_COMBOS[key]`
+would decide on the *value* before the language filter is asked) — what `shouldStrip_lang` uses -/
+theorem lang_keys_in_no_combo :
+    ∀ k ∈ Gen.Normalize.langQueryKeys,
+      (Gen.Normalize.queryCombosCallable.any fun x => x.toList == k.toList) = false ∧
+      comboLookup Gen.Normalize.queryCombos k.toList = none ∧
+      comboLookup Gen.Normalize.ampQueryCombos k.toList = none := by decide
+
 /-- every entry of the regenerated ISO-3166 table is made of `A`–`Z` (all that is asked of it) -/
 theorem isoCountries_upper :
     Gen.Normalize.isoCountries.all (fun c => c.toList.all isUpperAlpha) = true :=
